@@ -63,6 +63,11 @@ func decBytes(codec string) handler {
 
 // decodeArbitrary forks into a success branch (arbitrary value) and an error branch.
 func (e *Engine) decodeArbitrary(s *State, f *Frame, x ssa.Value, what string, mk func(ns *State) Value, zeroV Value) ([]*State, bool) {
+	if e.initMode {
+		// package initialisers must not fork: decoding of embedded data is not modelled
+		e.setRes(f, x, Tu{[]Value{zeroV, e.newErr(s, "decode "+what+" during init", nil)}})
+		return nil, false
+	}
 	okv := e.freshBool(s, "decode-ok."+what)
 	return e.forkOn(s, f, []alt{
 		{okv, func(ns *State, nf *Frame) { e.setRes(nf, x, Tu{[]Value{mk(ns), If{}}}) }, "decode-ok"},
